@@ -544,7 +544,11 @@ def handleInactivity (s : State) (now : Nat) : State × Bool :=
 def handleAckTimer (s : State) (now : Nat) (cancelled : Bool) : State :=
   let r := s.timer.ack.limitReached now
   let s := { s with timer := { s.timer with ack := r.1 } }
-  if r.2 then (if cancelled then abandon s now else (handleFault s .PositiveLimitReached now).1)
+  if r.2 then
+    (if cancelled then abandon s now
+     -- nothing is acknowledged in unacknowledged mode: the repeated closure Finished PDU just ends
+     else if s.cfg.mode == TransmissionMode.Unacknowledged then shutdown s now
+     else (handleFault s .PositiveLimitReached now).1)
   else
     let o := s.timer.ack.timeoutOccurred now
     let s := { s with timer := { s.timer with ack := o.1 } }
